@@ -5,7 +5,7 @@ import ast
 import re
 import struct
 
-from sa.astx import NotConst, call_name, src, walk_local
+from sa.astx import NotConst, call_name, lincmp, lin_expect, src, walk_local
 from sa.selftest import Mutant, Silent
 from sa.source import class_assigns
 from sa.props._lib_d import (call_nodes, calls_with, const_value_is, implied, local_def, path_under, peval,
@@ -17,7 +17,7 @@ from sa.source import AnalysisError
 
 PROPERTY = "C16"
 B = "protocols/basic.py"
-TECHNIQUE = "boundary evaluation along the CFG; interpreted multi-call segmentation runs; CFG ordering"
+TECHNIQUE = "CFG ordering, lincmp guard normal forms, threshold-exhaustive boundary evaluation; interpreted segmentations second"
 EXPLANATION = (
     "Decides by evaluating the branch decisions of protocols/basic.py on boundary values (length = MAX_LENGTH-1, MAX_LENGTH, "
     "MAX_LENGTH+1; buffer = limit-1, limit) along the CFG: a complete line / int-prefixed string / netstring of exactly "
@@ -44,7 +44,40 @@ EXPLANATION = (
     "inside the handler duplicates messages today (known finding F16p, armed as intn/pause-resume-inside-handler). "
     "Not decided: invariance for all streams "
     "(only the sample streams are enumerated)."
+    " METHODS per clause: exact limits = finite-exhaustive (branch decisions along the CFG at limit-1/limit/limit+1 with the checked argument that the measured "
+    "length is read only through one linear comparison, hence a step function); IntN prefix / completeness guards = structural lincmp normal forms on the normalised "
+    "view, pause re-tested inside the loop = structural (dominance + back-edge must-pass), with the interpreted runs (/evaluated) as second layer; buffer ordering, "
+    "state-before-call-out, flag reset, def-use chains, writer/reader tables = structural; segmentation invariance, reference framing, pause/resume from inside the "
+    "handler, LineReceiver re-entrancy, netstring digit pre-check / regex / writer format = BOUNDED evidence only (sample streams and values; no finite domain argument "
+    "exists for arbitrary streams)."
 )
+RULE_KINDS = {
+    # CFG ordering / dominance / must-pass on the normalised view (buffer consumed before the call-out, flag reset on every exit, swap before re-entry,
+    # handler -> close), def-use chains derived from the unpack() call, linear normal forms (lincmp) of the IntN length guards and of _payloadComplete,
+    # table agreement (structFormat / prefixLength / send limit / pack-unpack attribute)
+    "*": "structural",
+    # branch decisions evaluated along the CFG at limit-1, limit, limit+1.  Domain argument, checked on every run (_thr): each test that reads the
+    # measured length is one linear comparison in it, so the decision is a step function of an integer and the three points determine it everywhere
+    "line-only/complete-boundary": "finite-exhaustive", "line-only/pending-boundary": "finite-exhaustive",
+    "line/complete-boundary": "finite-exhaustive", "line/pending-boundary": "finite-exhaustive", "line/pending-kept": "finite-exhaustive",
+    "intn/limit-boundary": "finite-exhaustive", "intn/stops-after-limit": "finite-exhaustive", "intn/send-limit": "finite-exhaustive",
+    "netstring/limit-boundary": "finite-exhaustive", "netstring/payload-complete-boundary": "finite-exhaustive",
+    # every concrete receiver class, format evaluated at both ends of its range
+    "intn/prefix-table": "finite-exhaustive",
+    # ... the same rules when the domain argument could not be established: the boundary points only
+    "line-only/complete-boundary/sampled": "bounded", "line-only/pending-boundary/sampled": "bounded", "line/complete-boundary/sampled": "bounded",
+    "line/pending-boundary/sampled": "bounded", "intn/limit-boundary/sampled": "bounded", "intn/send-limit/sampled": "bounded",
+    "netstring/limit-boundary/sampled": "bounded",
+    # receivers interpreted from source on sample streams (every 2-way, many/all 3-way segmentations), hostile-handler scenarios, sample values
+    "intn/reference-framing": "bounded", "intn/segmentation-invariant": "bounded", "line/reference-framing": "bounded", "line/segmentation-invariant": "bounded",
+    "line-only/reference-framing": "bounded", "line-only/segmentation-invariant": "bounded", "netstring/reference-framing": "bounded",
+    "netstring/segmentation-invariant": "bounded", "intn/pause-resume-inside-handler": "bounded", "intn/pause-inside-handler-resume-later": "bounded",
+    "line/pause-resume-inside-handler": "bounded", "line/exactly-once-under-reentrancy": "bounded",
+    "intn/complete-message-delivered/evaluated": "bounded", "intn/incomplete-message-waits/evaluated": "bounded", "intn/prefix-boundary/evaluated": "bounded",
+    "intn/pause-honoured/evaluated": "bounded",
+    "netstring/digit-precheck": "bounded", "netstring/length-syntax": "bounded", "netstring/writer-format": "bounded", "netstring/payload-without-comma": "bounded",
+    "netstring/length-value": "bounded",
+}
 ASSUMPTIONS = [
     "lineReceived/rawDataReceived/stringReceived may re-enter dataReceived, setLineMode/setRawMode, pause/resume only",
     "MAX_LENGTH, delimiter, structFormat and prefixLength are not modified while a dataReceived call is on the stack",
@@ -115,6 +148,26 @@ def _appends_param(st, attr, param):
     return False
 
 
+def _thr(ctx, g, f, rule, var_text):
+    """Domain argument for a boundary rule that evaluates the branch decisions at limit-1, limit, limit+1: every test of the function that
+    reads ``var_text`` must be a single linear comparison in it (coefficient +-1) after substituting single-assignment temporaries - then the
+    decision is a threshold (step) function of that integer and the three points around the required threshold determine it for EVERY value.
+    Returns the rule name to use: ``rule`` (finite-exhaustive) when the argument is established, ``rule + '/sampled'`` (bounded) otherwise."""
+    bad = []
+    for n in g.nodes:
+        if n.kind != "test" or not g.reachable(n.id):
+            continue
+        forms = [x for x in (n.ast, resolve_locals(f, n.ast)) if var_text in src(x)]
+        if not forms:
+            continue
+        if not any((lambda nf: nf is not None and dict(nf[0]).get(var_text) in (1, -1))(lincmp(x)) for x in forms):
+            bad.append(src(n.ast))
+    if bad:
+        ctx.note(f"{rule}: domain argument not established ({var_text} is also read by {bad[:2]}): evaluated at the boundary points only (bounded)")
+        return rule + "/sampled"
+    return rule
+
+
 def _line_only(ctx):
     f = _F(ctx, B, "LineOnlyReceiver.dataReceived")
     g = ctx.cfg(f)
@@ -132,17 +185,19 @@ def _line_only(ctx):
     ctx.check(bool(ex_line), "line-only/complete-boundary", q + " | <site>", "over-long complete lines are not reported through lineLengthExceeded(line)")
     ctx.check(bool(ex_buf), "line-only/pending-boundary", q + " | <site>", "an over-long unterminated buffer is never reported (unbounded memory)")
     body = succ_of(g, head, "iter")
+    r_cb = _thr(ctx, g, f, "line-only/complete-boundary", f"len({lv})")
+    r_pb = _thr(ctx, g, f, "line-only/pending-boundary", "len(self._buffer)")
     for L, ok_len in ((M - 1, True), (M, True), (M + 1, False)):
         facts = {f"len({lv})": L, "self.MAX_LENGTH": M, "self.transport.disconnecting": False}
         c = q + f" | <complete line of MAX_LENGTH{L - M:+d} bytes>"
         R = reach_under(g, facts, srcs=body, avoid=[head])
         if ok_len:
             w = must_pass_under(g, facts, deliver, srcs=body, to=[g.exit, head])
-            ctx.check(w is None and not (R & set(ex_line)), "line-only/complete-boundary", c,
+            ctx.check(w is None and not (R & set(ex_line)), r_cb, c,
                       "a complete line within MAX_LENGTH is rejected (or not delivered)", witness=g.describe(w))
         else:
             w = must_pass_under(g, facts, ex_line, srcs=body, to=[g.exit, head])
-            ctx.check(w is None and not (R & set(deliver)), "line-only/complete-boundary", c,
+            ctx.check(w is None and not (R & set(deliver)), r_cb, c,
                       "a complete line longer than MAX_LENGTH is delivered (or not reported)", witness=g.describe(w))
     tail = succ_of(g, head, "done")
     for Bn, legit in ((M, True), (M + 1, True), (M + 2, False)):
@@ -150,13 +205,13 @@ def _line_only(ctx):
         c = q + f" | <pending buffer of MAX_LENGTH{Bn - M:+d} bytes, 2-byte delimiter>"
         R = reach_under(g, facts, srcs=tail)
         if legit:
-            ctx.check(not (R & set(ex_buf)), "line-only/pending-boundary", c,
+            ctx.check(not (R & set(ex_buf)), r_pb, c,
                       "an unterminated buffer that may still be a line of MAX_LENGTH bytes plus the first byte(s) of the delimiter is "
                       "rejected: the same line is accepted when its delimiter arrives in the same segment",
                       witness=g.describe(path_under(g, facts, ex_buf, srcs=tail)))
         else:
             w = must_pass_under(g, facts, ex_buf, srcs=tail)
-            ctx.check(w is None, "line-only/pending-boundary", c, "a buffer that can no longer become a legal line is not rejected", witness=g.describe(w))
+            ctx.check(w is None, r_pb, c, "a buffer that can no longer become a legal line is not rejected", witness=g.describe(w))
     # the pending piece is stored before the complete lines are handed out.  WHICH bytes are kept and in which order old and new
     # data are joined is decided by evaluation (line-only/reference-framing, line-only/segmentation-invariant), not by the
     # shape of the split / pop / slice / starred unpacking that computes it.
@@ -218,6 +273,8 @@ def _line_receiver(ctx):
               "the buffer is not split once at the first delimiter into (line, rest) with the rest stored back before the call-out")
     lv = tg.elts[0].id if ok else "line"
     after = succ_of(g, sp, None)
+    r_cb = _thr(ctx, g, f, "line/complete-boundary", f"len({lv})")
+    r_pb = _thr(ctx, g, f, "line/pending-boundary", "len(self._buffer)")
     deliver = [n for n, c in line_cb if c.args and src(c.args[0]) == lv]
     for L, ok_len in ((M - 1, True), (M, True), (M + 1, False)):
         facts = {f"len({lv})": L, "self.MAX_LENGTH": M}
@@ -226,11 +283,11 @@ def _line_receiver(ctx):
         exn = [n for n, _ in exc_cb]
         if ok_len:
             w = must_pass_under(g, facts, deliver, srcs=after, to=[g.exit, sp])
-            ctx.check(w is None and not (R & set(exn)), "line/complete-boundary", c, "a complete line within MAX_LENGTH is rejected (or not delivered)",
+            ctx.check(w is None and not (R & set(exn)), r_cb, c, "a complete line within MAX_LENGTH is rejected (or not delivered)",
                       witness=g.describe(w))
         else:
             w = must_pass_under(g, facts, exn, srcs=after, to=[g.exit, sp])
-            ctx.check(w is None and not (R & set(deliver)), "line/complete-boundary", c, "a complete line longer than MAX_LENGTH is delivered (or not reported)",
+            ctx.check(w is None and not (R & set(deliver)), r_cb, c, "a complete line longer than MAX_LENGTH is delivered (or not reported)",
                       witness=g.describe(w))
     hs = [h for h in succ_of(g, sp, "exc") if g.node(h).kind == "handler"]
     ctx.need(hs, "handler for 'no delimiter in the buffer'")
@@ -241,13 +298,13 @@ def _line_receiver(ctx):
         R = reach_under(g, facts, srcs=hs, avoid=[sp])
         exn = [n for n, _ in exc_cb]
         if legit:
-            ctx.check(not (R & set(exn)), "line/pending-boundary", c,
+            ctx.check(not (R & set(exn)), r_pb, c,
                       "an unterminated buffer that may still be a legal line plus a partial delimiter is rejected",
                       witness=g.describe(path_under(g, facts, exn, srcs=hs, avoid=[sp])))
             ctx.check(not (R & set(writes)), "line/pending-kept", c, "the unterminated buffer is modified while waiting for its delimiter")
         else:
             w = must_pass_under(g, facts, exn, srcs=hs, to=[g.exit, sp])
-            ctx.check(w is None, "line/pending-boundary", c, "a buffer that can no longer become a legal line is not rejected", witness=g.describe(w))
+            ctx.check(w is None, r_pb, c, "a buffer that can no longer become a legal line is not rejected", witness=g.describe(w))
     # buffer cleared / swapped before call-outs that may re-enter
     clears = [n for n in writes if any(const_value_is(v, lambda x: x == b"") for v in
                                        ([g.node(n).ast.value] if not isinstance(g.node(n).ast.value, ast.Tuple) else g.node(n).ast.value.elts))]
@@ -338,21 +395,75 @@ def _intn(ctx):
     head = heads[0]
     after = succ_of(g, un, None)
     # (a) limit
+    r_lb = _thr(ctx, g, f, "intn/limit-boundary", lvar)
     for L, ok_len in ((M - 1, True), (M, True), (M + 1, False)):
         facts = {lvar: L, "self.MAX_LENGTH": M}
         c = q + f" | <announced length MAX_LENGTH{L - M:+d}>"
         R = reach_under(g, facts, srcs=after, avoid=[head])
         if ok_len:
-            ctx.check(not (R & set(en)), "intn/limit-boundary", c, "a string within MAX_LENGTH is refused",
+            ctx.check(not (R & set(en)), r_lb, c, "a string within MAX_LENGTH is refused",
                       witness=g.describe(path_under(g, facts, en, srcs=after, avoid=[head])))
         else:
             w = must_pass_under(g, facts, en, srcs=after, to=[g.exit, head])
-            ctx.check(w is None and not (R & set(dn)), "intn/limit-boundary", c, "a string longer than MAX_LENGTH is delivered (or not reported)",
+            ctx.check(w is None and not (R & set(dn)), r_lb, c, "a string longer than MAX_LENGTH is delivered (or not reported)",
                       witness=g.describe(w))
             R2 = reach_under(g, facts, srcs=[s for e in en for s in succ_of(g, e, None)])
             ctx.check(not (R2 & (set(dn) | {un})), "intn/stops-after-limit", c, "parsing continues after lengthLimitExceeded in the same delivery")
-    # (b), (c) completeness of a message / of a length prefix, and pausing: decided by interpreting dataReceived on concrete buffers and
-    # looking at what is delivered (no local variable names or loop shape assumed)
+    # (b), (c) first layer, structural: the two length guards of the loop as linear normal forms on the normalised view (single-assignment
+    # temporaries substituted), whatever the loop looks like (while <test>, or while True with break guards), and the pause test inside the loop.
+    # Abstains (note) when the guards are not recognised; the interpreted layer below covers the same clauses.
+    sp0 = slice_parts(ucall.args[1]) if len(ucall.args) == 2 else None
+    if sp0 and isinstance(sp0[0], ast.Name) and sp0[1] is not None:
+        dvar, off = sp0[0].id, src(sp0[1])
+        lentxt = f"len({dvar})"
+
+        def proceed_forms(target_nodes, region_ok):
+            out = []
+            for t in g.nodes:
+                if t.kind != "test" or not g.reachable(t.id) or not region_ok(t.id):
+                    continue
+                e = resolve_locals(f, t.ast)
+                if lentxt not in src(e):
+                    continue
+                via = {lab: bool(set(g.reach(succ_of(g, t.id, lab), avoid=[head], edge_ok=lambda a, b, l: l != "exc")) & set(target_nodes)) for lab in ("T", "F")}
+                if via["T"] == via["F"]:
+                    continue
+                out.append((t.id, lincmp(e, negate=via["F"])))
+            return out
+
+        pre = proceed_forms([un], lambda t: not g.dominates(un, t))
+        want = lin_expect({lentxt: 1, off: -1, "self.prefixLength": -1}, 0)
+        if not pre:
+            ctx.note("intn/prefix-boundary: shape not recognised (no length guard in front of unpack), clause left to intn/prefix-boundary/evaluated")
+        for t, nf in pre:
+            ctx.check(nf == want, "intn/prefix-boundary", ctx.construct(q, g.node(t).ast),
+                      f"a length prefix is decoded exactly when 'len(buffer) - offset - prefixLength >= 0'; the guard normalises to "
+                      f"{sorted(nf[0]) if nf else None} >= {nf[1] if nf else None}: a complete prefix waits for more data, or an incomplete one is decoded")
+        post = proceed_forms(dn, lambda t: g.dominates(un, t))
+        want = lin_expect({lentxt: 1, off: -1, "self.prefixLength": -1, lvar: -1}, 0)
+        if not post:
+            ctx.note("intn/complete-message-delivered: shape not recognised (no length guard between unpack and stringReceived), clause left to the /evaluated rules")
+        for t, nf in post:
+            for rule, msg in (("intn/complete-message-delivered", "a string whose last byte has arrived is not delivered until more data comes"),
+                              ("intn/incomplete-message-waits", "a string is delivered although its last byte has not arrived")):
+                ctx.check(nf == want, rule, ctx.construct(q, g.node(t).ast),
+                          f"a string is delivered exactly when 'len(buffer) - offset - prefixLength - length >= 0'; the guard normalises to "
+                          f"{sorted(nf[0]) if nf else None} >= {nf[1] if nf else None}: {msg}")
+    else:
+        ctx.note("intn/prefix-boundary, intn/complete-message-delivered: unpack() argument is not a slice buffer[offset:start]; clauses left to the /evaluated rules")
+    ptests = [t.id for t in g.nodes if t.kind == "test" and g.reachable(t.id) and "self.paused" in src(resolve_locals(f, t.ast))]
+    if ptests:
+        ctx.check(implied(g, un, [{"self.paused": False}], [{"self.paused": True}]), "intn/pause-honoured", ctx.construct(q, ucall),
+                  "a length prefix is decoded (and its string delivered) although the protocol is paused")
+        for d in dn:
+            w = g.path(succ_of(g, d, None), [un], avoid=ptests, edge_ok=lambda a, b, l: l != "exc")
+            ctx.check(w is None, "intn/pause-honoured", ctx.construct(q, g.node(d).ast) + " | re-tested",
+                      "after a string was handed to the application the loop goes on to the next one without testing self.paused again: a handler that calls "
+                      "pauseProducing() still gets the strings that are already buffered", witness=g.describe(w))
+    else:
+        ctx.note("intn/pause-honoured: no test of self.paused recognised in dataReceived, clause left to intn/pause-honoured/evaluated")
+    # second layer for (b), (c): dataReceived interpreted on concrete buffers, looking at what is delivered (bounded evidence; a failing run is a
+    # genuine counterexample and the witness for the structural rules above)
     mod = ctx.mod(B)
 
     def delivered(cls_name, chunks, **attrs):
@@ -367,23 +478,23 @@ def _intn(ctx):
     for tail, label, want in ((msg[:-1], "prefix 2 + payload 5, one byte missing", []), (msg, "prefix 2 + payload 5, exactly complete", [("string", b"hello")]),
                               (msg + b"\x00", "prefix 2 + payload 5, one byte of the next prefix", [("string", b"hello")])):
         got = delivered("Int16StringReceiver", [tail])
-        rule = "intn/incomplete-message-waits" if not want else "intn/complete-message-delivered"
+        rule = "intn/incomplete-message-waits/evaluated" if not want else "intn/complete-message-delivered/evaluated"
         ctx.check(got == want, rule, q + f" | <{label}>",
                   ("a string is delivered (or refused) although its last byte has not arrived: " if not want else
                    "a string whose last byte has arrived is not delivered until more data comes (depends on segmentation): ") + f"delivered {got!r}")
     for cls_name, width in (("Int8StringReceiver", 1), ("Int16StringReceiver", 2), ("Int32StringReceiver", 4)):
         got = delivered(cls_name, [b"\x00" * width])
-        ctx.check(got == [("string", b"")], "intn/prefix-boundary", q + f" | <{width} zero bytes buffered, {width}-byte prefix>",
+        ctx.check(got == [("string", b"")], "intn/prefix-boundary/evaluated", q + f" | <{width} zero bytes buffered, {width}-byte prefix>",
                   f"a complete length prefix (announcing an empty string) is not decoded until more data arrives: delivered {got!r}")
         if width > 1:
             got = delivered(cls_name, [b"\x00" * (width - 1)])
-            ctx.check(got == [], "intn/prefix-boundary", q + f" | <{width - 1} bytes buffered, {width}-byte prefix>",
+            ctx.check(got == [], "intn/prefix-boundary/evaluated", q + f" | <{width - 1} bytes buffered, {width}-byte prefix>",
                       f"a length prefix is decoded before all its bytes arrived: {got!r}")
     got = delivered("Int16StringReceiver", [b"\x00\x05PAUSE" + msg])      # the stand-in handler pauses on the string b"PAUSE"
-    ctx.check(got == [("string", b"PAUSE")], "intn/pause-honoured", q + " | <handler pauses inside a delivery>",
+    ctx.check(got == [("string", b"PAUSE")], "intn/pause-honoured/evaluated", q + " | <handler pauses inside a delivery>",
               f"after the handler called pauseProducing() the strings still buffered are delivered in the same dataReceived call: {got!r}")
     got = delivered("Int16StringReceiver", [msg + msg], paused=True)
-    ctx.check(got == [], "intn/pause-honoured", q + " | <paused>", f"strings are decoded and delivered although the protocol is paused: {got!r}")
+    ctx.check(got == [], "intn/pause-honoured/evaluated", q + " | <paused>", f"strings are decoded and delivered although the protocol is paused: {got!r}")
     # (d) def-use chain of the slices
     def L(e):
         return local_def(f, e)
@@ -435,6 +546,7 @@ def _intn(ctx):
         wr = calls_with(gs, "self.transport.write")
         rz = _raises(gs, "StringTooLongError")
         ctx.need(wr, "transport.write in sendString")
+        r_sl = _thr(ctx, gs, fs, "intn/send-limit", f"len({sparam})")
         for pl in (1, 2):
             lim = 2 ** (8 * pl)
             for n_, fits in ((lim - 1, True), (lim, False)):
@@ -443,9 +555,9 @@ def _intn(ctx):
                 R = reach_under(gs, facts)
                 if fits:
                     w = must_pass_under(gs, facts, [n for n, _ in wr])
-                    ctx.check(w is None and not (R & set(rz)), "intn/send-limit", c, "a string whose length fits the prefix is refused", witness=gs.describe(w))
+                    ctx.check(w is None and not (R & set(rz)), r_sl, c, "a string whose length fits the prefix is refused", witness=gs.describe(w))
                 else:
-                    ctx.check(not (R & {n for n, _ in wr}) and bool(R & set(rz)), "intn/send-limit", c,
+                    ctx.check(not (R & {n for n, _ in wr}) and bool(R & set(rz)), r_sl, c,
                               "a string whose length does not fit the prefix is sent (the prefix wraps around / struct.error instead of StringTooLongError)")
         for n, call in wr:
             a = call.args[0] if call.args else None
@@ -524,14 +636,15 @@ def _netstring(ctx):
         q = Q + "NetstringReceiver._extractLength"
         p = f.args.args[1].arg
         rz = _raises(g, "NetstringParseError")
+        r_nl = _thr(ctx, g, f, "netstring/limit-boundary", "length")
         for L, ok_len in ((M - 1, True), (M, True), (M + 1, False)):
             facts = {p: str(L).encode(), "self.MAX_LENGTH": M}
             R = reach_under(g, facts)
             c = q + f" | <length MAX_LENGTH{L - M:+d}>"
             if ok_len:
-                ctx.check(not (R & set(rz)) and g.exit in R, "netstring/limit-boundary", c, "a netstring within MAX_LENGTH is refused")
+                ctx.check(not (R & set(rz)) and g.exit in R, r_nl, c, "a netstring within MAX_LENGTH is refused")
             else:
-                ctx.check(bool(R & set(rz)) and g.exit not in R, "netstring/limit-boundary", c, "a netstring longer than MAX_LENGTH is accepted")
+                ctx.check(bool(R & set(rz)) and g.exit not in R, r_nl, c, "a netstring longer than MAX_LENGTH is accepted")
         rets = [x for x in walk_local(f) if isinstance(x, ast.Return) and x.value is not None]
         ctx.check(len(rets) == 1 and test_value(ast.Compare(left=rets[0].value, ops=[ast.Eq()], comparators=[ast.Constant(7)]), {"length": 7, p: b"7"}) is True
                   if rets else False, "netstring/length-value", q, "_extractLength does not return the decimal value of the length field")
